@@ -337,11 +337,13 @@ def _execute_one(sf, op, pos, H, passive):
                 o = outcome(sf.set_semantic_constraints)
             else:
                 o = outcome(sf.set_semantic_constraints, op["name"])
+            H[("ret", idx)] = o[3]
             rec["r"] = o[:3]
         elif k == "set_table":
             arg = _wrap(parse_arg(op["lit"]), op.get("wrap"), sf, op.get("x"))
             H[idx] = arg
             o = outcome(sf.set_semantic_constraints, arg)
+            H[("ret", idx)] = o[3]         # whatever the call returns is an object the caller may keep
             rec["r"] = o[:3]
         elif k == "get":
             o = outcome(sf.get_semantic_constraints)
@@ -364,7 +366,7 @@ def _execute_one(sf, op, pos, H, passive):
             H[idx] = o[3]
             rec["r"] = o[:3]
         elif k == "mutate":
-            obj = H.get(op["h"])
+            obj = H.get(("ret", op["h"]) if op.get("ret") else op["h"])
             rec["r"] = ("ok", _mutate(obj, op["how"], op["arg"]) if obj is not None else False, None)
         elif k == "util":
             rec["r"] = _util(sf, op)[:3]
